@@ -46,7 +46,26 @@ func directedProgram() *idlgen.Program {
 			fld(13, idlgen.Default, ty(idlgen.I32), "n"),
 			fld(14, idlgen.Default, named("Plain"), "dp"),
 		}},
+		// one REQUIRED field per category: under field_mask_zero_required every ZeroWriter case is reached (also through the
+		// compact protocol, where WriteBool is not WriteByte)
+		{Kind: 's', Name: "Reqs", Fields: []*idlgen.Field{
+			fld(1, idlgen.Required, ty(idlgen.Bool), "rb"),
+			fld(2, idlgen.Required, ty(idlgen.Byte), "ry"),
+			fld(3, idlgen.Required, ty(idlgen.I16), "rh"),
+			fld(4, idlgen.Required, ty(idlgen.I32), "ri"),
+			fld(5, idlgen.Required, ty(idlgen.I64), "rl"),
+			fld(6, idlgen.Required, ty(idlgen.Double), "rd"),
+			fld(7, idlgen.Required, ty(idlgen.String), "rs"),
+			fld(8, idlgen.Required, ty(idlgen.Binary), "rx"),
+			fld(9, idlgen.Required, named("Kind"), "re"),
+			fld(10, idlgen.Required, list(ty(idlgen.I32)), "rli"),
+			fld(11, idlgen.Required, set(ty(idlgen.String)), "rse"),
+			fld(12, idlgen.Required, mp(ty(idlgen.I32), ty(idlgen.String)), "rma"),
+			fld(13, idlgen.Required, named("Plain"), "rpl"),
+			fld(14, idlgen.Default, ty(idlgen.Bool), "tail"),
+		}},
 	}
+	f.Enums = []*idlgen.Enum{{Name: "Kind", Values: []idlgen.EnumValue{{Name: "KA", Value: 1, HasValue: true}, {Name: "KB", Value: 2, HasValue: true}}}}
 	f.Order = []idlgen.DefRef{}
 	return &idlgen.Program{Files: []*idlgen.File{f}}
 }
@@ -334,6 +353,9 @@ func fieldKid(id int64, name string, byName bool, sub *mnode) *mkid {
 	return &mkid{kind: 'f', id: id, name: name, byName: byName, sub: sub}
 }
 
+// after: the complete path ends here and is written after the deeper paths of sh
+func after(sh *mnode) *mnode { return &mnode{leaf: true, shadow: sh} }
+
 func idxNode(sub *mnode, idx ...int64) *mnode {
 	n := &mnode{}
 	for _, i := range idx {
@@ -356,6 +378,24 @@ func directedCases(s *idlgen.Schema, sidx int) []directedCase {
 				directedCase{v, black, root(fieldKid(4, "lu", true, idxNode(leafNode(), 0)))},
 				directedCase{v, black, root(fieldKid(4, "lu", true, leafNode()))},
 				directedCase{v, black, nil})
+		}
+		return out
+	}
+	if s.Structs[sidx].Name == "Reqs" {
+		st := s.Structs[sidx]
+		v := values.Record(values.Bool(true), values.Int(3), values.Int(4), values.Int(5), values.Int(6), values.Double(0x3ff8000000000000), values.Str("s"),
+			values.Bytes([]byte("x")), values.Int(2), values.List(values.Int(1), values.Int(2)), values.Set(values.Str("a")), values.Map(values.Int(1), values.Str("v")),
+			values.Record(values.Int(9), values.Str("b")), values.Bool(true))
+		for _, black := range []bool{false, true} {
+			out = append(out, directedCase{v, black, nil}, directedCase{v, black, leafNode()})
+			all := &mnode{}
+			for i, f := range st.Fields {
+				out = append(out, directedCase{v, black, root(fieldKid(int64(f.ID), f.Name, i%2 == 0, leafNode()))})
+				if i%2 == 0 {
+					all.kids = append(all.kids, fieldKid(int64(f.ID), f.Name, true, leafNode()))
+				}
+			}
+			out = append(out, directedCase{v, black, all})
 		}
 		return out
 	}
@@ -416,6 +456,14 @@ func directedCases(s *idlgen.Schema, sidx int) []directedCase {
 				directedCase{v, black, root(fieldKid(8, "oi", true, &mnode{kids: []*mkid{fieldKid(2, "y", true, leafNode())}}))},
 				directedCase{v, black, root(fieldKid(9, "di", true, star('f', leafNode())))},
 				directedCase{v, black, root(fieldKid(10, "rs", true, leafNode()), fieldKid(11, "on", false, leafNode()))},
+				// a complete path written AFTER deeper paths through the same node: `$.dp.a` then `$.dp`, `$.l[0]` then `$.l`,
+				// `$.li[*].z` then `$.li[*]`, `$.ms{"k"}.x` then `$.ms{"k"}`, `$.oi.y` then `$.oi`, `$.mi{0}` then `$.mi`
+				directedCase{v, black, root(fieldKid(14, "dp", true, after(&mnode{kids: []*mkid{fieldKid(1, "a", true, leafNode())}})))},
+				directedCase{v, black, root(fieldKid(1, "l", true, after(idxNode(leafNode(), 0))))},
+				directedCase{v, black, root(fieldKid(5, "li", true, star('i', after(&mnode{kids: []*mkid{fieldKid(3, "z", true, leafNode())}}))))},
+				directedCase{v, black, root(fieldKid(4, "ms", true, keys('s', after(&mnode{kids: []*mkid{fieldKid(1, "x", true, leafNode())}}), nil, []string{"k"})))},
+				directedCase{v, black, root(fieldKid(8, "oi", false, after(&mnode{kids: []*mkid{fieldKid(2, "y", true, leafNode())}})))},
+				directedCase{v, black, root(fieldKid(3, "mi", true, after(keys('k', leafNode(), []int64{0}, nil))), fieldKid(13, "n", true, leafNode()))},
 			)
 		}
 	}
